@@ -13,24 +13,24 @@ TECHNIQUE = ("bounded-exhaustive enumeration of (size, strategy, element type, e
 LEVEL_TEXT = ("Every (size, InvCompType strategy, element type, entry point) of the stated box is instantiated and executed under each ISA build on "
               "every member of the matrix families of DESIGN.md 4.3 (diagonally dominant integer matrices, Householder-built Q D Q^T matrices "
               "with prescribed condition number, all / generating row permutations for the pivoted strategies, triangular variants). Judged: "
-              "||AX-I||_F and ||XA-I||_F <= c*n*u*kappa_2(A)*amp with c = 8, kappa_2 measured by a long double Jacobi SVD of the matrix as stored, "
-              "amp = max(1, growth of the reference's unpivoted LU of the (pre-pivoted) matrix) and, for the strategies that eliminate through an "
-              "explicitly inverted pivot block (SimpleInv, SimpleInvPiv, inv()), also the measured max leading-block kappa_2. Membership in the "
-              "strategy's domain is decided a posteriori from the leading-block condition numbers of A (or of P*A with P from the library's public "
-              "pivot). A coverage statement over the box, not a sample.")
+              "||AX-I||_F and ||XA-I||_F <= c*n*u*kappa_2(A)*max(1,growth) with c = 8, kappa_2 measured by a long double Jacobi SVD of the matrix as stored "
+              "and growth = || |L||U| ||_F/||A||_F of the reference's unpivoted LU of the (pre-pivoted) matrix. Membership in the strategy's domain is "
+              "decided a posteriori from the leading-block condition numbers of A (or of P*A with P from the library's public pivot). A coverage "
+              "statement over the box, not a sample.")
 RULE = ("enumeration of (entry point, element type, n, strategy, family group) x ISA; per case every member of the group is generated at run time for "
-        "the case's n; evaluation = one library call judged by both residuals against c*n*u*kappa_2(A)*amp (amp: measured LU growth; for the "
-        "explicit-inverse block recursion also the measured max leading-block kappa_2), plus the exact inverse by fraction-free integer elimination "
-        "for the integer families (n <= 12), plus exact triangularity for tinverse; destination pre-filled with a sentinel, canary frame; members "
-        "outside the strategy's domain (max leading-block kappa_2 of A / P*A above 1.1e3 f32, 1.1e6 f64) are run, counted per family and not judged; "
-        "members that pass but exceed c*n*u*kappa_2*growth (no leading-block kappa) are counted as strict.*; non-trivial = every judged member")
+        "the case's n; evaluation = one library call judged by both residuals against c*n*u*kappa_2(A)*max(1, measured LU growth), plus the exact "
+        "inverse by fraction-free integer elimination for the integer families (n <= 12), plus exact triangularity for tinverse; destination pre-filled "
+        "with a sentinel, canary frame; members outside the strategy's domain (max leading-block kappa_2 of A / P*A above 1.1e3 f32, 1.1e6 f64; above 5e2 "
+        "for the explicit-inverse block recursion SimpleInv / SimpleInvPiv / inv() with n > 4) are run, counted per family and not judged; non-trivial = "
+        "every judged member")
 ASSUMPTIONS = [
     "c = 8 in every bound; u = 2^-24 / 2^-53; kappa_2, leading-block kappa_2 and LU growth measured in long double on the entries as stored in T",
     "the families are deterministic functions of n only; sizes outside the enumerated set are not claimed",
     "'the strategy is defined on A' is decided a posteriori: all leading blocks of A (unpivoted) or of P*A with P = pivot<PivType::V>(A) (pivoted) have kappa_2 <= 1.1e3 (f32) / 1.1e6 (f64)",
-    "block elimination through an explicitly inverted pivot block is only conditionally stable (backward error proportional to kappa of the pivot block: "
-    "Demmel/Higham/Schreiber 1995, Higham ASNA Thm 13.6), so SimpleInv / SimpleInvPiv / inv() are judged with the measured max leading-block kappa_2 in the "
-    "bound (la::LEAD_KAPPA_IN_BOUND); how often they exceed the bound without it is reported (strict_bound_exceedances)",
+    "block elimination through an explicitly inverted pivot block (SimpleInv / SimpleInvPiv / inv() for n > 4) is only conditionally stable: its error carries "
+    "kappa of the pivot block per recursion level (Demmel/Higham/Schreiber 1995, Higham ASNA Thm 13.6); 'well conditioned leading blocks' means kappa_2 <= 5e2 "
+    "for these strategies (measured: residual/bound <= 0.08 below 1e3, up to 7e3 above); members between 5e2 and the general threshold are counted with their "
+    "would-pass / would-fail tally (explicit_block_domain), not judged",
     "tinverse<UniUpper> and tinverse<Lower> have no implementation in the pinned tree (self-recursive generic overload): recorded, not judged",
 ]
 STRATS = ["SimpleInv", "SimpleInvPiv", "BlockLU", "BlockLUPiv", "SimpleLU", "SimpleLUPiv"]
@@ -155,31 +155,29 @@ def expected_routes(tier):
 
 
 def domain_summary(ID, run, cov):
-    """shared by C10 and C12: per-family in-domain / out-of-domain counts, gaps, and the strict-bound telemetry"""
-    dom, strict = {}, {}
-    for k, v in cov["routes"].items():
+    """shared by C10 and C12: per-family in-domain / out-of-domain counts, gaps, and the out-of-domain telemetry"""
+    dom = {}
+    rt = cov["routes"]
+    for k, v in rt.items():
         if k.startswith("dom.in.") or k.startswith("dom.out."):
             fam = k.split(".", 2)[2]
             dom.setdefault(fam, {"in_domain": 0, "out_of_domain": 0})["in_domain" if k.startswith("dom.in.") else "out_of_domain"] += v
-        if k.startswith("strict.exceeds_cnu_kappa_growth."):
-            strict[k.split(".", 2)[2]] = v
     worst = 0.0
     for r in run.results.values():
         for nt in r.notes:
-            m = re.match(r"strict_max_ratio=([0-9.eE+-]+)", nt)
+            m = re.match(r"ood_max_ratio=([0-9.eE+-]+)", nt)
             if m:
                 worst = max(worst, float(m.group(1)))
     cov["domain_counts_per_family"] = dom
     cov["domain_gaps"] = sorted(f for f, d in dom.items() if d["in_domain"] == 0)
-    cov["strict_bound_exceedances"] = {"per_family": strict, "max_ratio": worst,
-                                       "meaning": "judged members of the explicit-inverse strategies that pass c*n*u*kappa_2*max(growth, leading-block kappa) "
-                                                  "but exceed c*n*u*kappa_2*growth; max_ratio = largest residual / (c*n*u*kappa_2*growth)"}
+    cov["out_of_domain"] = {"would_pass": rt.get("ood.would_pass", 0), "would_fail": rt.get("ood.would_fail", 0), "max_residual_over_bound": worst}
+    cov["explicit_block_domain"] = {"threshold": 5e2, "members_between_5e2_and_general_threshold_would_pass": rt.get("ood.explicit_block_only.would_pass", 0),
+                                    "would_fail": rt.get("ood.explicit_block_only.would_fail", 0)}
     print(f"{ID} domain: in-domain evaluations={sum(d['in_domain'] for d in dom.values())} out-of-domain (run, counted, not judged)="
-          f"{sum(d['out_of_domain'] for d in dom.values())} [would pass {cov['routes'].get('ood.would_pass', 0)}, would fail {cov['routes'].get('ood.would_fail', 0)}]")
+          f"{sum(d['out_of_domain'] for d in dom.values())} [would pass {rt.get('ood.would_pass', 0)}, would fail {rt.get('ood.would_fail', 0)}, "
+          f"max residual/bound {worst:.3g}]; of these only outside the explicit-inverse threshold 5e2: would pass "
+          f"{rt.get('ood.explicit_block_only.would_pass', 0)}, would fail {rt.get('ood.explicit_block_only.would_fail', 0)}")
     print(f"{ID} per family in/out: " + ", ".join(f"{f}={d['in_domain']}/{d['out_of_domain']}" for f, d in sorted(dom.items())))
-    if strict:
-        print(f"{ID} explicit-inverse strategies above the bound without leading-block kappa (counted, judged with it): {sum(strict.values())} members, "
-              f"max ratio {worst:.3g}: {strict}")
     for f in cov["domain_gaps"]:
         print(f"{ID} GAP: family {f} has no in-domain member in this run ({dom[f]['out_of_domain']} out of domain)")
 
